@@ -23,7 +23,8 @@ OnOp(e) ==
         v5 == Add(v4, ~(isRoutine /\ e.ret) \/ ~e.nan, "NoNaNPresented:" \o e.op)
         v6 == Add(v5, ~(e.op = "pflow" /\ e.ret /\ s.afterReset /\ e.nominal) \/ e.pf_equal_first, "ResetThenPFlowSame")
         v7 == Add(v6, ~(e.op = "pflow" /\ e.ret /\ e.nominal /\ ~s.tdsInit) \/ e.pf_equal_first, "RepeatedPFlowSame")
-        v8 == Add(v7, ~(e.op = "infeasible") \/ (e.raised \/ (e.exit_after > 0 /\ ~e.ret)), "InfeasibleInputReported:" \o e.kind)
+        v7b == Add(v7, e.reset_outcome_ok, "OutcomeAfterResetAsOnFreshSystem:" \o e.op)
+        v8 == Add(v7b, ~(e.op = "infeasible") \/ (e.raised \/ (e.exit_after > 0 /\ ~e.ret)), "InfeasibleInputReported:" \o e.kind)
         \* conformance: the transitions of Lifecycle
         pf2 == IF e.op = "pflow" THEN (IF e.ret THEN "ok" ELSE "failed") ELSE s.pf
         d1 == Add(s.drift, e.pf_after = pf2 \/ e.raised, "pf_state")
